@@ -86,6 +86,23 @@ structure LeafEntry where
   overflow : Bool
   cell : ByteArray
 
+/-- entry `i` of a leaf page with `n` entries -/
+def decodeLeafEntry (p : ByteArray) (n i : Nat) : Except String LeafEntry := do
+  let off (i : Nat) : Nat := u16le p (2 + 34 * i + 32) % 32768
+  let raw := u16le p (2 + 34 * i + 32)
+  let s := raw % 32768
+  let e := if i + 1 == n then PAGE else off (i + 1)
+  if s < 2 + 34 * n then throw s!"leaf: cell {i} starts inside the cell pointers"
+  if e < s then throw s!"leaf: cell {i} has negative length"
+  if e > PAGE then throw s!"leaf: cell {i} ends after the page"
+  let ov := raw ≥ 32768
+  let len := e - s
+  if ov then
+    if len < 44 || len % 4 != 0 || len > 40 + 4 * MAX_OVERFLOW_CELL_NODE_POINTERS then
+      throw s!"leaf: overflow cell {i} of length {len}"
+  else if len > MAX_LEAF_VALUE_SIZE then throw s!"leaf: inline value {i} of length {len}"
+  pure { key := p.extract (2 + 34 * i) (2 + 34 * i + 32), overflow := ov, cell := p.extract s e }
+
 /-- `n: u16 | (key ++ offset)[n] | padding | cells`; a cell ends where the next one starts, the last
 one at the end of the page; bit 15 of the offset marks an overflow cell. -/
 def decodeLeaf (p : ByteArray) : Except String (List LeafEntry) := do
@@ -93,21 +110,7 @@ def decodeLeaf (p : ByteArray) : Except String (List LeafEntry) := do
   let n := u16le p 0
   if n == 0 then throw "leaf: n = 0"
   if 2 + 34 * n ≥ PAGE then throw s!"leaf: n = {n} does not fit"
-  let off (i : Nat) : Nat := u16le p (2 + 34 * i + 32) % 32768
-  (List.range n).mapM (fun i => do
-    let raw := u16le p (2 + 34 * i + 32)
-    let s := raw % 32768
-    let e := if i + 1 == n then PAGE else off (i + 1)
-    if s < 2 + 34 * n then throw s!"leaf: cell {i} starts inside the cell pointers"
-    if e < s then throw s!"leaf: cell {i} has negative length"
-    if e > PAGE then throw s!"leaf: cell {i} ends after the page"
-    let ov := raw ≥ 32768
-    let len := e - s
-    if ov then
-      if len < 44 || len % 4 != 0 || len > 40 + 4 * MAX_OVERFLOW_CELL_NODE_POINTERS then
-        throw s!"leaf: overflow cell {i} of length {len}"
-    else if len > MAX_LEAF_VALUE_SIZE then throw s!"leaf: inline value {i} of length {len}"
-    pure { key := p.extract (2 + 34 * i) (2 + 34 * i + 32), overflow := ov, cell := p.extract s e })
+  (List.range n).mapM (decodeLeafEntry p n)
 
 /-! ## overflow cells and pages -/
 
@@ -225,6 +228,21 @@ structure Branch where
 
 def BRANCH_HEADER : Nat := 10
 
+/-- separator `i` (as a 256-bit number) and node pointer `i` of a branch page with header values
+`n`, `pc` (prefix-compressed count), `pl` (prefix length), `pfx` = the prefix bits as a number -/
+def decodeBranchSep (p : ByteArray) (n pc pl pfx i : Nat) : Except String (Nat × Nat) := do
+  let bitsBase := BRANCH_HEADER + 2 * n
+  let cell (i : Nat) : Nat := u16le p (BRANCH_HEADER + 2 * i)
+  let s := if i == 0 then 0 else cell (i - 1)
+  let e := cell i
+  if e < s then throw s!"branch: cell {i} ends before it starts"
+  if e > cell (n - 1) then throw s!"branch: cell {i} ends after the last cell"
+  let len := e - s
+  let bits := bitsNat p bitsBase (pl + s) len
+  let (total, val) := if i < pc then (pl + len, pfx * 2 ^ len + bits) else (len, bits)
+  if total > 256 then throw s!"branch: separator {i} has {total} bits"
+  pure (val * 2 ^ (256 - total), u32le p (PAGE - 4 * (n - i)))
+
 /-- `bbn_pn u32 | n u16 | prefix_compressed u16 | prefix_len u16 | cells u16[n] | prefix bits ++
 separator bits | … | node pointers u32[n]` (pointers aligned to the end of the page).  Separator `i`
 occupies bits `[cell(i-1), cell(i))` after the prefix; the first `prefix_compressed` separators are
@@ -243,16 +261,7 @@ def decodeBranch (p : ByteArray) : Except String Branch := do
   let totalBits := pl + cell (n - 1)
   if bitsBase + (totalBits + 7) / 8 + 4 * n > PAGE then throw s!"branch: {totalBits} separator bits do not fit"
   let pfx := bitsNat p bitsBase 0 pl
-  let seps ← (List.range n).mapM (fun i => do
-    let s := if i == 0 then 0 else cell (i - 1)
-    let e := cell i
-    if e < s then throw s!"branch: cell {i} ends before it starts"
-    if e > cell (n - 1) then throw s!"branch: cell {i} ends after the last cell"
-    let len := e - s
-    let bits := bitsNat p bitsBase (pl + s) len
-    let (total, val) := if i < pc then (pl + len, pfx * 2 ^ len + bits) else (len, bits)
-    if total > 256 then throw s!"branch: separator {i} has {total} bits"
-    pure (val * 2 ^ (256 - total), u32le p (PAGE - 4 * (n - i))))
+  let seps ← (List.range n).mapM (decodeBranchSep p n pc pl pfx)
   pure { bbnPn := u32le p 0, prefixLen := pl, prefixCompressed := pc, seps := seps }
 
 /-! ## seglog record header -/
